@@ -128,8 +128,16 @@ def classify(exp, table, gen_text, diags):
             r["text"] = r.get("text") or (s.get("text") or [{}])[0].get("text", "").strip()
             return r
 
-        po = [org(s) for s in prim]
-        so = [org(s) for s in sec]
+        def expand(sp):
+            out = [sp]
+            e = sp.get("expansion")
+            while e and e.get("span"):
+                out.append(e["span"])
+                e = e["span"].get("expansion")
+            return out
+
+        po = [org(x) for s in prim for x in expand(s)]
+        so = [org(x) for s in sec for x in expand(s)]
         if kind is None or any(re.search(p, msg) for p in TOOL_FAIL):
             undecided.append({"message": msg, "at": po[:1], "rendered": (d.get("rendered") or "")[:1500]})
             continue
@@ -151,8 +159,11 @@ def classify(exp, table, gen_text, diags):
                     site = o
         ob["clause"] = clause
         ob["site"] = site
+        pre = next((o for o in po + so if (o.get("label") or "").startswith("failed precondition")), None)
         if clause:
             name = "%s:%s[%d]" % (clause["fn"], clause["kw"], clause["index"])
+        elif pre is not None and pre.get("text"):
+            name = "env-requires[%s]" % re.sub(r"\s+", " ", pre["text"].replace("requires", "").strip())[:90]
         else:
             tl = next((o for o in po + so if o.get("where") == "template"), None)
             vs = next((o for o in po + so if o.get("where") == "vstd"), None)
@@ -198,6 +209,11 @@ def run_unit(unit, rlimit=None, seed=None, vac=True, quiet=False):
     path = os.path.join(outdir, "unit.rs")
     open(path, "w").write(text)
     extra = []
+    m = re.search(r"^//@rlimit (\d+)", open(tmpl).read(), re.M)
+    if m and not rlimit:
+        rlimit = int(m.group(1))
+    elif m and rlimit:
+        rlimit = max(rlimit, 2 * int(m.group(1)))
     if rlimit:
         extra += ["--rlimit", str(rlimit)]
     if seed is not None:
